@@ -326,6 +326,9 @@ func newEventFromUntrustedJSONV1(eventJSON []byte, roomVersion IRoomVersion) (PD
 	if err := checkNoDuplicateKeys(eventJSON); err != nil {
 		return nil, BadJSONError{err}
 	}
+	if err := checkReceivedEventLength(eventJSON); err != nil {
+		return nil, err
+	}
 
 	res := &eventV1{}
 	res.roomVersion = roomVersion.Version()
